@@ -506,7 +506,7 @@ func TestVerifC12Suppress(t *testing.T) {
 						if r.nW >= 2 {
 							ds.Add(fmt.Sprintf("%v", c))
 						}
-						if res.Evaluations%997 == 1 || r.nW >= 5 && res.Evaluations%101 == 2 {
+						if env.Shard == 0 && r.nW >= 3 && len(res.Samples) == 0 { // one readable example per part
 							res.Sample(fmt.Sprintf("cgroup %s BE subtree %s %v cache=%s old=%v target={%s} -> %d file writes, each judged as a crash point: %s",
 								ver, tr.Name, tr.Dirs, mode, c12sShow(old), c12sList(target), r.nW, strings.Join(r.trace, " ; ")))
 						}
